@@ -475,6 +475,9 @@ func (r *Run) initPackages() {
 
 // finishPath builds the native validation case from a model of the path.
 func (r *Run) finishPath() {
+	if r.noValidate {
+		return
+	}
 	r.flush()
 	if r.sol.CheckSat() != Sat {
 		return
